@@ -138,17 +138,25 @@ func fidCanon(f *fit.File) string {
 
 // ------------------------------------------------------------ partitions
 
-var c10Families = []string{"1", "2", "3", "7", "4095", "4096", "4097", "8192", "random", "eofdata"}
+var c10Families = []string{"1", "2", "3", "7", "4095", "4096", "4097", "8192", "random", "eofdata", "edge"}
 
 // ioSched describes how the reader cuts the stream into Read results.
 type ioSched struct {
 	Family string `json:"partition"`
 	Chunk  int    `json:"chunk,omitempty"` // constant chunk size (0: Sched is explicit)
 	Sched  []int  `json:"sched,omitempty"`
+	Ones   int    `json:"one_byte_reads,omitempty"` // this many 1-byte reads, then every Read returns all it is asked for
 	Ewd    bool   `json:"eof_with_data"`
 }
 
 func (p ioSched) expand(n int) []int {
+	if p.Ones > 0 {
+		out := make([]int, p.Ones)
+		for i := range out {
+			out[i] = 1
+		}
+		return out
+	}
 	if p.Chunk == 0 {
 		return p.Sched
 	}
@@ -246,15 +254,15 @@ func (in *ioInput) intact() int {
 }
 
 type ioCase struct {
-	Entry    string  `json:"entry"`
-	Hex      string  `json:"input_hex"`
-	Frames   []int   `json:"valid_frame_lengths"`
-	Trailing int     `json:"trailing_bytes"`
-	Corrupt  int     `json:"corrupted_offset"`
-	Part     ioSched `json:"reader"`
-	Cut      int     `json:"cut_offset"`
-	Fault    bool    `json:"fault"`
-	Chunking string  `json:"chunking,omitempty"`
+	Entry    string   `json:"entry"`
+	Hex      string   `json:"input_hex"`
+	Frames   []int    `json:"valid_frame_lengths"`
+	Trailing int      `json:"trailing_bytes"`
+	Corrupt  int      `json:"corrupted_offset"`
+	Part     ioSched  `json:"reader"`
+	Cut      int      `json:"cut_offset"`
+	Fault    bool     `json:"fault"`
+	Chunking string   `json:"chunking,omitempty"`
 	Names    []string `json:"files,omitempty"`
 }
 
@@ -262,7 +270,7 @@ const c10ModelMax = 9000 // bytes; larger inputs run on the implementation only 
 
 // soloDecode decodes one candidate file alone (one big read) through the
 // world and returns its vfile when the library accepts it.
-func soloDecode(w *world, data []byte, name string, s *stream, useModel bool) (*vfile, decOut, decOut, error) {
+func soloDecode(r *report, w *world, data []byte, name string, s *stream, useModel bool) (*vfile, decOut, decOut, error) {
 	hs, ds, ok := parseFrame(data)
 	if !ok {
 		return nil, decOut{}, decOut{}, nil
@@ -274,6 +282,10 @@ func soloDecode(w *world, data []byte, name string, s *stream, useModel bool) (*
 		impl, model, err = w.decode("D", optSet{}, rs)
 		if err != nil {
 			return nil, impl, model, err
+		}
+		if r != nil && impl.observable() != model.observable() {
+			r.corrFail("model_vs_impl_solo", fmt.Sprintf("model and implementation differ on a file decoded alone in one read (%s)\n    impl : %.400s\n    model: %.400s", name, impl.observable(), model.observable()),
+				ioCase{Entry: "D", Hex: hexs(data), Corrupt: -1, Cut: -1, Part: ioSched{Family: "whole"}, Names: []string{name}})
 		}
 	} else {
 		impl = implDecode("D", optSet{}, rs)
@@ -328,7 +340,7 @@ func (c *c10Ctx) runCase(in *ioInput, entry string, part ioSched) bool {
 	var impl, model decOut
 	// CheckIntegrity's io.CopyN is quadratic in the model under fine partitions; it touches no accumulator,
 	// so the model run can be skipped for large inputs without desynchronising the accumulator mirror
-	fine := part.Family == "random" || part.Family == "small" || (part.Chunk > 0 && part.Chunk < 512) || (part.Family == "eofdata" && len(part.Sched) > 0)
+	fine := part.Family == "random" || part.Family == "small" || part.Family == "edge" || (part.Chunk > 0 && part.Chunk < 512) || (part.Family == "eofdata" && len(part.Sched) > 0)
 	useModel := in.model && !(entry == "I" && fine && len(in.data) > 2500)
 	if useModel {
 		var err error
@@ -462,9 +474,38 @@ func entryName(e string) string {
 
 var c10Entries = []string{"D", "I", "J", "H", "F", "C"}
 
+// edgePartition: 1-byte reads up to the point where exactly delta bytes of some file's data remain, then reads
+// that return everything asked for: the next fill of the 4096-byte buffer happens with limit - n = delta, so an
+// off-by-one in its cap (delta around the buffer size, or 1-3) shows as bytes taken beyond the frame.
+func edgePartition(rg *rng, in *ioInput) ioSched {
+	if len(in.files) == 0 {
+		return ioSched{Family: "edge", Ones: 1 + rg.intn(len(in.data)+1)}
+	}
+	j := rg.intn(len(in.files))
+	off := 0
+	for i := 0; i < j; i++ {
+		off += len(in.files[i].data)
+	}
+	f := in.files[j]
+	deltas := []int{1, 2, 3}
+	if f.ds >= 4097 {
+		deltas = []int{4095, 4096, 4097, 4095, 4096, 4097, 4095, 1, 2}
+	} else if f.ds >= 4095 {
+		deltas = []int{4095, 4095, 1}
+	}
+	d := deltas[rg.intn(len(deltas))]
+	if d > f.ds {
+		d = f.ds
+	}
+	return ioSched{Family: "edge", Ones: off + f.hs + f.ds - d}
+}
+
 func (c *c10Ctx) runInput(in *ioInput, fams []string) bool {
 	for _, fam := range fams {
 		part := c10Partition(c.rg, fam, len(in.data))
+		if fam == "edge" {
+			part = edgePartition(c.rg, in)
+		}
 		for _, e := range c10Entries {
 			if !c.runCase(in, e, part) {
 				return false
@@ -506,7 +547,7 @@ func runC10(args []string) int {
 	o := parseRunOpts("c10", args)
 	r := newReport("C10", o)
 	r.Rule = "inputs: valid files (generated from the profile table, small and larger than the 4096-byte buffer, and the library's testdata files that decode) and concatenations of 1-5 of them, with and without trailing bytes (1 byte, garbage, truncated header, longer than the buffer), a share of them with one corrupted byte so that failing paths run too; " +
-		"each input x 10 partition families (chunks of 1, 2, 3, 7, 4095, 4096, 4097, 8192 bytes, random sizes with empty reads, last chunk together with EOF) x 6 entry points through a counting reader; " +
+		"each input x 11 partition families (chunks of 1, 2, 3, 7, 4095, 4096, 4097, 8192 bytes, random sizes with empty reads, last chunk together with EOF, and edge: 1-byte reads until exactly 1-3 or 4095-4097 data bytes of a file remain, then unbounded reads) x 6 entry points through a counting reader; " +
 		"judged on the implementation: bytes consumed (= header+data+2 on success of Decode/CheckIntegrity, = header size for the header-only calls, never beyond the frame on any path), Files of DecodeChained = Files of the solo decodes, header/file_id of DecodeHeader/DecodeHeaderAndFileID = those of Decode; every run also compared with the extracted model (inputs up to 9000 bytes); " +
 		"non-trivial = bytes follow what the call consumed (next file or trailing bytes); distinct by (input, entry, partition)"
 	d, err := startDriver(o.driver)
@@ -532,6 +573,7 @@ func runC10(args []string) int {
 	cfg := defaultCfg()
 	cfg.illFormed = 0
 	var pool, poolBig []*vfile
+	var rejected [][]byte // generated files Decode rejects: no validity claim, the frame bound still applies
 	nPool := sizes(o.tier, o.boost, 260, 6000)
 	for i := 0; i < nPool; i++ {
 		cfg.maxRecords = 12
@@ -552,13 +594,16 @@ func runC10(args []string) int {
 				data = s.bytes()
 			}
 		}
-		v, impl, _, err := soloDecode(w, data, "generated", s, true)
+		v, impl, _, err := soloDecode(r, w, data, "generated", s, true)
 		if err != nil {
 			fmt.Println("driver:", err)
 			return 2
 		}
 		if v == nil {
 			r.hist("generated_file_rejected_by_decode")
+			if len(rejected) < 40 {
+				rejected = append(rejected, data)
+			}
 			if len(r.Notes) < 3 {
 				r.Notes = append(r.Notes, fmt.Sprintf("generated file not accepted by Decode (left to C02): %s %.200s", impl.ErrText, s.specArgs()))
 			}
@@ -582,7 +627,7 @@ func runC10(args []string) int {
 		frames := splitFrames(raw)
 		for i, fr := range frames {
 			small := len(fr) <= 2500
-			v, _, _, err := soloDecode(w, fr, fmt.Sprintf("%s#%d", rel, i), nil, small)
+			v, _, _, err := soloDecode(r, w, fr, fmt.Sprintf("%s#%d", rel, i), nil, small)
 			if err != nil {
 				fmt.Println("driver:", err)
 				return 2
@@ -652,7 +697,7 @@ func runC10(args []string) int {
 	phase("pools built")
 	// 1. every pool file and small corpus frame alone, then with trailing bytes
 	nIn := 0
-	budget := sizes(o.tier, o.boost, 150, 12000)
+	budget := sizes(o.tier, o.boost, 120, 12000)
 	fams := c10Families
 	if o.tier == "thorough" {
 		fams = append(append([]string{}, c10Families...), "small", "random", "random")
@@ -669,6 +714,14 @@ func runC10(args []string) int {
 			}
 			r.hist("inputs_corpus_single")
 		}
+	}
+	for _, data := range rejected {
+		in := &ioInput{corrupt: -1, model: len(data) <= c10ModelMax, trailing: append(append([]byte{}, data...), trailingBytes(rg, st)...)}
+		in.build()
+		if !c.runInput(in, fams) {
+			return 2
+		}
+		r.hist("inputs_rejected_generated_bounds_only")
 	}
 	phase("corpus singles done")
 	for nIn < budget {
@@ -708,7 +761,7 @@ func runC10(args []string) int {
 	// 2. the large corpus files on the implementation alone (last: the model's accumulator mirror is no longer needed)
 	bigFams := fams
 	if o.tier != "thorough" {
-		bigFams = []string{"1", "7", "4095", "4096", "4097", "8192", "random", "eofdata"}
+		bigFams = []string{"1", "7", "4095", "4096", "4097", "8192", "random", "eofdata", "edge", "edge"}
 	}
 	for i, f := range corpusBig {
 		in := &ioInput{files: []*vfile{f}, corrupt: -1}
@@ -809,7 +862,7 @@ func replayIO(r *report, w *world, o runOpts) int {
 			// the replay stores the corrupted bytes; the frame is no longer valid and is not claimed
 			break
 		}
-		v, _, _, err := soloDecode(w, fr, "replay", nil, in.model)
+		v, _, _, err := soloDecode(nil, w, fr, "replay", nil, in.model)
 		if err != nil {
 			fmt.Println("driver:", err)
 			return 2
